@@ -137,9 +137,28 @@ def _py_prefix_facts(mod):
     if 'pk' in env:
         for x in stmts:
             if isinstance(x, ast.If) and pmatch(x.test, '?bsd', env):
-                if first('?fc = [?fs[?k] for ?k in ?pk]', env, [y for b in x.body for y in ast.walk(b)
-                                                                 if isinstance(y, ast.stmt)]):
-                    facts['reorder'] = True
+                inner = [y for b in x.body for y in ast.walk(b) if isinstance(y, ast.stmt)]
+                if first('?fc = [?fs[?k] for ?k in ?pk]', env, inner):
+                    # ... on every path that leaves the branch normally: no condition (such as
+                    # "only when an OrderedDict is involved") may let a pair of dict nodes through
+                    # with the children in the full tree's own order
+                    from ..py_frontend import pycfg
+                    cfg = pycfg(fn)
+                    rr = [y for y in inner if pmatch(y, '?fc = [?fs[?k] for ?k in ?pk]', env) is not None]
+                    rn = {cfg.ast_to_node.get(id(y)) for y in rr}
+                    cn = cfg.ast_to_node.get(id(x.test))
+                    inside = {id(z) for b in x.body for z in ast.walk(b)}
+                    ok = cn is not None and None not in rn
+                    if ok:
+                        starts = [w for (w, lab) in cfg.succ[cn] if lab is True]
+                        reach = cfg.reachable(starts, skip_nodes=rn, skip_back=False)
+                        for v in reach:
+                            nd = cfg.nodes[v]
+                            if nd.ast is not None and id(nd.ast) not in inside and nd.kind not in ('exit', 'raise'):
+                                ok = False
+                    facts['reorder'] = ok
+                    if not ok:
+                        facts['why']['reorder'] = 'the re-read by the prefix keys is skipped on some path'
     return facts
 
 
